@@ -2063,6 +2063,39 @@ typedef struct {
     Boolean MayChange, DoCross;
 } TEnterStruct, *PEnterStruct;
 
+static PSymbolEntry pPendingPhaseEntry = NULL;
+static LargeInt     PendingPhaseOldValue;
+
+static void FlagPhaseError(PTree Neu) {
+    if ((!Repass) && (JmpErrors > 0)) {
+        if (ThrowErrors) {
+            ErrorCount -= JmpErrors;
+        }
+        JmpErrors = 0;
+    }
+    Repass = True;
+    if ((MsgIfRepass) && (PassNo >= PassNoForMessage)) {
+        strmaxcpy(serr, Neu->Name, STRINGSIZE);
+        if (Neu->Attribute != -1) {
+            strmaxcat(serr, "[", STRINGSIZE);
+            strmaxcat(serr, GetSectionName(Neu->Attribute), STRINGSIZE);
+            strmaxcat(serr, "]", STRINGSIZE);
+        }
+        WrXError(ErrNum_PhaseErr, serr);
+    }
+}
+
+void FlushPendingPhaseError(void) {
+    if (pPendingPhaseEntry) {
+        PSymbolEntry pEntry = pPendingPhaseEntry;
+
+        pPendingPhaseEntry = NULL;
+        if (pEntry->SymWert.Contents.Int != PendingPhaseOldValue) {
+            FlagPhaseError(&pEntry->Tree);
+        }
+    }
+}
+
 static Boolean SymbolAdder(PTree* PDest, PTree Neu, void* pData) {
     PSymbolEntry NewEntry    = (PSymbolEntry)Neu, *Node;
     PEnterStruct EnterStruct = (PEnterStruct)pData;
@@ -2130,21 +2163,17 @@ static Boolean SymbolAdder(PTree* PDest, PTree Neu, void* pData) {
                 || ((NewEntry->SymWert.Typ == TempInt)
                     && (NewEntry->SymWert.Contents.Int
                         != (*Node)->SymWert.Contents.Int))) {
-                if ((!Repass) && (JmpErrors > 0)) {
-                    if (ThrowErrors) {
-                        ErrorCount -= JmpErrors;
-                    }
-                    JmpErrors = 0;
-                }
-                Repass = True;
-                if ((MsgIfRepass) && (PassNo >= PassNoForMessage)) {
-                    strmaxcpy(serr, Neu->Name, STRINGSIZE);
-                    if (Neu->Attribute != -1) {
-                        strmaxcat(serr, "[", STRINGSIZE);
-                        strmaxcat(serr, GetSectionName(Neu->Attribute), STRINGSIZE);
-                        strmaxcat(serr, "]", STRINGSIZE);
-                    }
-                    WrXError(ErrNum_PhaseErr, serr);
+                /* a label's value may still be corrected by automatic padding
+                   in the same or one of the next lines: defer the decision */
+
+                if ((NewEntry->SymWert.Typ == TempInt)
+                    && (NewEntry->SymWert.Flags & eSymbolFlag_Label) && DoPadding
+                    && (NewEntry->SymWert.Contents.Int & 1)) {
+                    FlushPendingPhaseError();
+                    pPendingPhaseEntry = NewEntry;
+                    PendingPhaseOldValue = (*Node)->SymWert.Contents.Int;
+                } else {
+                    FlagPhaseError(Neu);
                 }
             }
         }
@@ -3207,6 +3236,8 @@ static void ClearSymbolList_ClearNode(PTree Node, void* pData) {
 
 void ClearSymbolList(void) {
     PTree TreeRoot;
+
+    pPendingPhaseEntry = NULL;
 
     TreeRoot    = &(FirstSymbol->Tree);
     FirstSymbol = NULL;
